@@ -170,10 +170,6 @@ theorem EncKind.decode_nodup (k : EncKind) (n : Nat) (m : List (Option Bool)) : 
 theorem len_onNew (w : World) : w.onNew.solvers.length = w.solvers.length + 1 := by simp [World.onNew]
 theorem len_onReserve (w : World) (s n : Nat) : (w.onReserve s n).solvers.length = w.solvers.length := by
   simp [World.onReserve, World.upd]
-theorem len_onClause (w : World) (s : Nat) (c : Clause) : (w.onClause s c).solvers.length = w.solvers.length := by
-  simp [World.onClause, World.upd]
-theorem len_onSolve (w : World) (s : Nat) (a : List Lit) : (w.onSolve s a).solvers.length = w.solvers.length := by
-  simp [World.onSolve, World.upd]
 
 /-- solvers are never destroyed -/
 theorem wp_len {α : Type} {C : Prop} (k : Nat) (p : Prog α) : ∀ (w : World) (Q : α → World → Prop),
